@@ -25,7 +25,13 @@ if [ -f "$DEMO" ]; then
   rm "$T/repo/zz_demo_test.go"; git -C "$T/repo" apply "$D/patch.diff"
 fi
 # 3. the checks
-rsync -a --exclude .git --exclude 'build/t-*' --exclude replays --exclude seeded /verif/ "$T/verif/"
+if [ "${FROM_HEAD:-0}" = 1 ]; then
+  # the committed state of /verif (other work in progress in the working tree is left out) + the compiled Coq files
+  git -C /verif archive HEAD | (mkdir -p "$T/verif" && tar -x -C "$T/verif")
+  rsync -a --include='*/' --include='*.vo' --include='*.glob' --include='.*.aux' --include='Makefile*' --include='.Makefile.d' --exclude='*' /verif/coq/ "$T/verif/coq/"
+else
+  rsync -a --exclude .git --exclude 'build/t-*' --exclude replays --exclude seeded /verif/ "$T/verif/"
+fi
 mkdir -p "$T/verif/replays" "$T/verif/build"
 sed -i "s#=> /repo#=> $T/repo#" "$T/verif/go/go.mod"
 export VERIF_ROOT="$T/verif" VERIF_REPO="$T/repo"
@@ -40,12 +46,20 @@ for p in "$@"; do
 import json,sys
 try:
     r=json.load(open(sys.argv[1]))
-    print("     kind=%s desc=%s" % (r.get("kind"), (r.get("description") or "")[:160]))
+    print("     kind=%s file=%s desc=%s" % (r.get("kind"), r.get("file"), (r.get("description") or "")[:160]))
     c=r.get("commands") or []
     print("     commands(%d): %s" % (len(c), " | ".join(c[:12])[:600]))
     print("     impl=%s  required/model=%s" % (str(r.get("implementation"))[:200], str(r.get("required", r.get("model")))[:200]))
 except Exception as e:
     print("     (replay unreadable: %r)" % e)
+# every replay of this run: which generated file each failing history came from
+import glob,os
+for q in sorted(glob.glob(os.path.join(os.path.dirname(sys.argv[1]), "*.json"))):
+    try:
+        x=json.load(open(q))
+        print("     replay %s kind=%s file=%s" % (os.path.basename(q), x.get("kind"), x.get("file")))
+    except Exception:
+        pass
 EOF
   else
     echo "$p: missed    $(echo "$out" | tail -1 | cut -c1-200)"
